@@ -53,6 +53,13 @@ pub struct Step {
     pub mem_unjudged: Vec<u32>,
     /// effective address of the memory operand, if any (for coverage)
     pub ea: Option<u32>,
+    /// registers whose post-value is not judged (bit i = ERi)
+    pub reg_unjudged: u8,
+    /// +/- form whose data register lies inside the address register: the transferred value /
+    /// final register are ambiguous, only the accessed location and the cycle mix are defined
+    pub overlap: bool,
+    /// name used in place of the instruction form for actions that are not instructions
+    pub label: Option<&'static str>,
 }
 
 // ---------------------------------------------------------------------------------------------
@@ -229,6 +236,8 @@ struct Ctx<'a> {
     ea: Option<u32>,
     mem_unjudged: Vec<u32>,
     ccr_unjudged: u8,
+    reg_unjudged: u8,
+    overlap: bool,
     special: bool,
 }
 
@@ -311,7 +320,7 @@ fn addr_reg(o: Opd) -> Option<u8> {
 pub fn step(r: &mut Regs, mem: &mut Mem) -> Step {
     let pc0 = r.pc;
     let (w, avail) = fetch_words(mem, pc0);
-    let mut st = Step { insn: Insn::undef(), outcome: Outcome::Unjudged("?"), ccr_unjudged: 0, mem_unjudged: vec![], ea: None };
+    let mut st = Step { insn: Insn::undef(), outcome: Outcome::Unjudged("?"), ccr_unjudged: 0, mem_unjudged: vec![], ea: None, reg_unjudged: 0, overlap: false, label: None };
     if pc0 & 1 != 0 || pc0 > AM {
         st.outcome = Outcome::Unjudged("odd or out-of-range pc");
         return st;
@@ -345,10 +354,12 @@ pub fn step(r: &mut Regs, mem: &mut Mem) -> Step {
     }
     let saved = r.clone();
     let wmark = mem.wlog.len();
-    let mut cx = Ctx { r, mem, cyc: Cycles { judged: true, ..Default::default() }, ea: None, mem_unjudged: vec![], ccr_unjudged: 0, special: false };
+    let mut cx = Ctx { r, mem, cyc: Cycles { judged: true, ..Default::default() }, ea: None, mem_unjudged: vec![], ccr_unjudged: 0, reg_unjudged: 0, overlap: false, special: false };
     let res = exec(&mut cx, &insn, pc0);
     let (cyc, ea, mu, cu, special) = (cx.cyc, cx.ea, cx.mem_unjudged, cx.ccr_unjudged, cx.special);
     st.ea = ea;
+    st.reg_unjudged = cx.reg_unjudged;
+    st.overlap = cx.overlap;
     match res {
         Ok(()) => {
             if special {
@@ -385,15 +396,19 @@ fn exec(cx: &mut Ctx, i: &Insn, pc0: u32) -> R<()> {
     cx.r.pc = next;
     match i.mn {
         Mov => {
-            // +/- forms with the data register inside the address register are excluded
+            // +/- forms with the data register inside the address register: the properties exclude
+            // them as far as values go; the accessed location and the cycle mix stay defined
+            let mut overlap_store = false;
             if let (Some(a), Opd::R(d)) = (addr_reg(i.src), i.dst) {
                 if matches!(i.src, Opd::PostInc(_)) && er_of(d) == a {
-                    return Err(Stop::Unj("data register overlaps address register"));
+                    cx.overlap = true;
+                    cx.reg_unjudged |= 1 << a;
                 }
             }
             if let (Opd::R(s), Some(a)) = (i.src, addr_reg(i.dst)) {
                 if matches!(i.dst, Opd::PreDec(_)) && er_of(s) == a {
-                    return Err(Stop::Unj("data register overlaps address register"));
+                    cx.overlap = true;
+                    overlap_store = true;
                 }
             }
             let v = match i.src {
@@ -420,6 +435,15 @@ fn exec(cx: &mut Ctx, i: &Insn, pc0: u32) -> R<()> {
             }
             nz(&mut cx.r.ccr, v, sz);
             cx.r.ccr &= !V;
+            if overlap_store {
+                // which value is stored (before / after the decrement) is not judged
+                cx.ccr_unjudged |= N | Z;
+                if let Some(a) = cx.ea {
+                    for k in 0..sz.bytes() {
+                        cx.mem_unjudged.push(a + k);
+                    }
+                }
+            }
         }
         Add | Sub | Cmp => {
             let s = match i.src {
